@@ -10,6 +10,7 @@ import (
 	"verif/harness/datecompare"
 	"verif/harness/dates"
 	"verif/harness/document"
+	"verif/harness/matching"
 	"verif/harness/nodeheap"
 	"verif/harness/similarity"
 	"verif/harness/warnings"
@@ -32,6 +33,8 @@ func main() {
 		err = dates.Main(os.Args[2:])
 	case "document":
 		err = document.Main(os.Args[2:])
+	case "matching":
+		err = matching.Main(os.Args[2:])
 	case "nodeheap":
 		err = nodeheap.Main(os.Args[2:])
 	case "similarity":
